@@ -9,6 +9,8 @@ PROP = 'C13'
 def main(tier, seed):
     t0 = time.time()
     items = fam_ops.const_family(seed, tier)
+    # lengths of literal / constant strings and arrays asked directly, against the same question through a variable
+    items += [it for it in fam_ops.fold_family([2, 3]) if it.key[1] == 'constant_lengths']
     extra = []
     cov = {}
     pairs = asmtext.record_pairs(tier=tier, seed=seed)
